@@ -185,6 +185,49 @@ func loadFindings(path string) []Finding {
 
 var keySan = regexp.MustCompile(`[^A-Za-z0-9_.-]+`)
 
+// Failing counts the obligations that are neither held nor covered by a known
+// finding (no output, no files).
+func (r *Run) Failing(verifDir string) int {
+	findings := loadFindings(filepath.Join(verifDir, "known_findings.json"))
+	n := 0
+	for _, o := range r.Obl {
+		switch o.Verdict {
+		case Held:
+		case Unresolved:
+			n++
+		case Violated:
+			if knownFor(findings, r.Prop, o) == "" {
+				n++
+			}
+		}
+	}
+	return n
+}
+
+func knownFor(findings []Finding, prop string, o *O) string {
+	msg := strings.Join(o.Msgs, "\n")
+	for _, f := range findings {
+		if f.Status != "known" || f.Property != prop {
+			continue
+		}
+		ro, e1 := regexp.Compile(f.Obligation)
+		rm, e2 := regexp.Compile(f.Match)
+		if e1 != nil || e2 != nil {
+			continue
+		}
+		all := true
+		for _, m := range o.Msgs {
+			if !rm.MatchString(m) {
+				all = false
+			}
+		}
+		if ro.MatchString(o.Key) && all && rm.MatchString(msg) {
+			return f.WhatFails
+		}
+	}
+	return ""
+}
+
 // Finish prints the report, writes evidence and replay files, returns the exit code.
 func (r *Run) Finish(verifDir string, seed int64) int {
 	findings := loadFindings(filepath.Join(verifDir, "known_findings.json"))
@@ -206,29 +249,7 @@ func (r *Run) Finish(verifDir string, seed int64) int {
 		case Unresolved:
 			unres++
 		case Violated:
-			// known finding?
-			msg := strings.Join(o.Msgs, "\n")
-			for _, f := range findings {
-				if f.Status != "known" || f.Property != r.Prop {
-					continue
-				}
-				ro, e1 := regexp.Compile(f.Obligation)
-				rm, e2 := regexp.Compile(f.Match)
-				if e1 != nil || e2 != nil {
-					continue
-				}
-				// every message of the obligation must be covered by the entry
-				all := true
-				for _, m := range o.Msgs {
-					if !rm.MatchString(m) {
-						all = false
-					}
-				}
-				if ro.MatchString(o.Key) && all && rm.MatchString(msg) {
-					o.Known = f.WhatFails
-					break
-				}
-			}
+			o.Known = knownFor(findings, r.Prop, o)
 			if o.Known != "" {
 				known++
 				knownLines = append(knownLines, fmt.Sprintf("KNOWN-FINDING: property=%s %s [%s]", r.Prop, o.Known, o.Key))
